@@ -1509,7 +1509,8 @@ emitdata(struct decl *d, struct init *init)
 		if (cur->bits.before || cur->bits.after) {
 			/* little-endian target specific */
 			assert(cur->expr->type->prop & PROPINT);
-			assert(cur->expr->kind == EXPRCONST);
+			if (cur->expr->kind != EXPRCONST)
+				error(&tok.loc, "initializer is not a constant expression");
 			bits |= cur->expr->u.constant.u << cur->bits.before % 8;
 			for (offset = start; offset < end; ++offset, bits >>= 8)
 				printf("b %u, ", (unsigned)bits & 0xff);
